@@ -14,22 +14,8 @@ ASSUME = ["exact max-min values by brute-force enumeration of pure memoryless st
 
 
 def plan(ctx):
-    j = ctx.jobs
-    P = []
-    if ctx.thorough:
-        P.append(sweep.universe_shards(PROP, "U-T3", j, thresholds=sweep.THRESHOLDS))
-        P.append(sweep.universe_shards(PROP, "U-S2", j, thresholds=sweep.THRESHOLDS))
-        P.append(sweep.universe_shards(PROP, "U-S3", j))
-        P.append(sweep.universe_shards(PROP, "U-S4r", j, frac=8, seed=ctx.seed))
-        P.append(sweep.family_shards(PROP, "U-F", j, max_deg=5))
-    else:
-        P.append(sweep.universe_shards(PROP, "U-S2d2", j, thresholds=sweep.THRESHOLDS))
-        P.append(sweep.universe_shards(PROP, "U-S2", j, frac=4, seed=ctx.seed))
-        P.append(sweep.universe_shards(PROP, "U-T3", j, frac=16, seed=ctx.seed, thresholds=sweep.THRESHOLDS[:1]))
-        P.append(sweep.family_shards(PROP, "U-F", j, max_deg=3))
-    P.append(sweep.family_shards(PROP, "U-D", j))
-    P.append(sweep.family_shards(PROP, "U-X", j))
-    return P
+    from ._plans import all_games_plan
+    return all_games_plan(PROP, ctx, thresholds=True)
 
 
 def _vacuity(tot):
